@@ -47,6 +47,14 @@ def _gen_sym_odd(name, bid):
             offsets += [addr + c - 1, addr + c, addr + c + 1]
         offsets += [i0 + 2, i0 + 3, i0 + 4, i0 + 7, i0 + 8, i0 + 9, i1 - 1, i1, addr + size - 1, addr + size]
         addr += size + (fi % 3)                                                   # functions abut, or are 1..2 bytes apart
+    # frames without a file below frames with one: an inline range that starts before the first line record of its function, and
+    # line / INLINE records naming a file id that has no FILE record - the outer frame's call file is still reported for such offsets
+    a = 0xA000
+    L += ["FUNC %x 40 0 gap_func" % a, "INLINE 0 7 2 0 %x 20" % a, "INLINE 1 8 3 1 %x 8" % (a + 4), "%x 10 9 4" % (a + 0x10), "%x 20 11 5" % (a + 0x20)]
+    offsets += [a, a + 3, a + 4, a + 5, a + 0xb, a + 0xc, a + 0xf, a + 0x10, a + 0x1f, a + 0x20]
+    b = 0xB000
+    L += ["FUNC %x 30 0 nofile_func" % b, "INLINE 0 3 1 0 %x 10" % b, "INLINE 0 4 77 1 %x 8" % (b + 0x18), "%x 18 5 99" % b, "%x 18 6 6" % (b + 0x18)]
+    offsets += [b, b + 4, b + 0xf, b + 0x10, b + 0x17, b + 0x18, b + 0x1c, b + 0x20, b + 0x2f]
     return "\n".join(L) + "\n", sorted(set(o for o in offsets if o >= 0))
 
 
